@@ -443,8 +443,11 @@ def gen_list_all(seed, big):
         # a ready unwrap-block that cannot be unwrapped appears in neither status, but pending elements inside it do
         "before\n<%(tl)s to='2001-01-01 00:00:00' unwrap-block>\n<%(rm)s name='p'> legacy(); </%(rm)s>\n</%(tl)s>\nafter\n",
         "x <%(tl)s to='2001-01-01 00:00:00' unwrap-block><%(rm)s name='p'>y</%(rm)s></%(tl)s> z\n",
+        # a pending unwrap-block has two pending regions (head, tail); pending elements in its body are regions of their own
+        "start()\n<%(tl)s to='2999-12-31 23:59:59' unwrap-block>\nif (r) {\n  a()\n  <%(rm)s name='p'>\n  b()\n  </%(rm)s>\n  c()\n}\n</%(tl)s>\nend()\n",
+        "<%(rm)s name='p' unwrap-block>\n{\n  <%(rm)s name='p'>\n  x\n  </%(rm)s>\n  m\n  <%(tl)s to='2999-01-01 00:00:00' unwrap-block>\n  {\n    y\n  }\n  </%(tl)s>\n}\n</%(rm)s>\n",
     ]
-    expect = [(2, 1), (0, 1), (1, 2), None, None, (0, 0), (0, 1), (0, 2), (1, 0), (1, 0), (1, 0)]
+    expect = [(2, 1), (0, 1), (1, 2), None, None, (0, 0), (0, 1), (0, 2), (1, 0), (1, 0), (1, 0), (3, 0), (5, 0)]
     for d, e in zip(docs, expect):
         src = d % {'rm': RM, 'tl': TL}
         out.append((dict(cfg(), mode='list_all_json', source=src, ds='<', de='>', _pair='list_json'), ('LIST_ALL', src, e)))
@@ -476,6 +479,13 @@ def gen_inline(seed, big):
             parts.append(el)
             if not ready:
                 keep.append(el)
+            if rnd.random() < 0.15:
+                ob = f"{ds}{TL} to='{PAST}' unwrap-block{de}"
+                cb_ = f"{ds}/{TL}{de}"
+                inner_ready = f"{ds}{RM} name='f1'{de}GONE{ds}/{RM}{de}"
+                a_, b_ = rnd.choice([' a ', 'é', '']), rnd.choice([' b ', 'ü', ''])
+                parts.append(ob + a_ + inner_ready + b_ + cb_)
+                keep.append(ob + a_ + b_ + cb_)
             # further ready elements directly behind this one (no byte between them)
             for _k in range(rnd.choice([0, 0, 0, 1, 1, 2])):
                 tag2, attrs2 = rnd.choice([(TL, f"to='{PAST}'"), (RM, "name='f1'")])
@@ -582,6 +592,15 @@ def gen_dedent_nested(seed, big):
         def unwrap(ind, k, depth, src, exp):
             src.append(unit * ind + f"<{RM} name='f1' unwrap-block>")
             src.append(unit * ind + 'if a {')
+            first = rnd.choice(['text', 'text', 'text', 'removed', 'nested', 'empty'])
+            if first == 'empty':
+                # the first inner line is empty: its indentation is 0, the shift of THIS block is 0
+                src.append('')
+                k = k - 1
+            elif first == 'removed':
+                removed(ind + 1, src)
+            elif first == 'nested' and depth < 3:
+                unwrap(ind + 1, k + 1, depth + 1, src, exp)
             text(ind + 1, k + 1, src, exp)
             for _ in range(rnd.randint(0, 3)):
                 c = rnd.random()
@@ -637,8 +656,8 @@ def gen_unwrap_wrappers(seed, big):
     inner line and both neighbours survive (compared trimmed, in order)."""
     rnd = random.Random(seed + 13)
     out = []
-    w1s = ['if (x) {', 'if (released) { // é', '{', '\tif a {', 'match x { // 日本語', 'begin -- ü  ']
-    w2s = ['}', '} // 終了', '}  ', '\t}', '}; // é', 'end 📌']
+    w1s = ['if (x) {', 'if (released) { // é', '{', '\tif a {', 'match x { // 日本語', 'begin -- ü  ', '\t', '\t\t', ' ', '']
+    w2s = ['}', '} // 終了', '}  ', '\t}', '}; // é', 'end 📌', '\t', ' ', '']
     for _ in range(300 if big else 100):
         ind = rnd.choice(['', '  ', '\t', '    '])
         pre = rnd.choice(['before', 'é();', '  x'])
